@@ -326,10 +326,19 @@ fn lp_round_trip(post: &Ledger, wk: &Pubkey, salt: u64, idx: usize, cov: &mut Co
         ta_lower: ix::pda_tick_array(wk, sl),
         ta_upper: ix::pda_tick_array(wk, su),
     };
-    let liq = rng.log_u128(80);
-    let inc = if rng.chance(1, 2) { ix::increase_liquidity(&la, liq, u64::MAX, u64::MAX) } else { ix::increase_liquidity_v2(&la, liq, u64::MAX, u64::MAX) };
-    if !run1(&mut l, inc).ok {
-        return out;
+    // one deposit, or the same liquidity split into many dust deposits (whatever each rounding gives away adds up)
+    let split: u128 = if rng.chance(1, 2) { 1 } else { 4 + rng.below(13) as u128 };
+    let bits = *rng.pick(&[4u32, 8, 12, 20, 40]);
+    let lot = if split == 1 { rng.log_u128(80) } else { 1 + rng.log_u128(bits) };
+    let liq = lot * split;
+    for _ in 0..split {
+        let inc = if rng.chance(1, 2) { ix::increase_liquidity(&la, lot, u64::MAX, u64::MAX) } else { ix::increase_liquidity_v2(&la, lot, u64::MAX, u64::MAX) };
+        if !run1(&mut l, inc).ok {
+            return out;
+        }
+    }
+    if split > 1 {
+        cov.probe("lp_round_trip_split_into_dust_deposits");
     }
     let (a_mid, b_mid) = (token_amount(&l, &ta), token_amount(&l, &tb));
     let dec = if rng.chance(1, 2) { ix::decrease_liquidity(&la, liq, 0, 0) } else { ix::decrease_liquidity_v2(&la, liq, 0, 0) };
